@@ -209,7 +209,7 @@ func c11Build(r *core.Rng, fresh ...int) *c11Target {
 			n.ViaCond = true
 		}
 	})
-	if r.Chance(1, 12) {
+	if r.Chance(1, 40) {
 		// one nested stack of another magnitude (whatever a query keeps per element is kept thousands of times)
 		bulk := &TNode{T: "stack", Kind: []string{"AND", "LIST", "BASIC"}[r.Intn(3)]}
 		for i, n := 0, []int{4095, 4096, 4200}[r.Intn(3)]; i < n; i++ {
